@@ -181,7 +181,22 @@ func delegatesTo(fn *ssa.Function) *ssa.Function {
 			}
 			nErr++
 		default:
-			return nil
+			// `v, _ := sibling(r); return v`: the error is not looked at - the same thing provided the sibling itself
+			// answers a nil first result with every error it can return
+			ex, isE := p.Results[0].(*ssa.Extract)
+			if len(ps) != 1 || !isE || ex.Tuple != ssa.Value(call) || ex.Index != 0 {
+				return nil
+			}
+			for _, b := range callee.Blocks {
+				ret, isR := b.Instrs[len(b.Instrs)-1].(*ssa.Return)
+				if !isR || len(ret.Results) != 2 {
+					continue
+				}
+				if !paths.IsNilConst(ret.Results[1]) && !paths.IsNilConst(ret.Results[0]) {
+					return nil
+				}
+			}
+			return callee
 		}
 	}
 	if nOK == 0 || nErr == 0 {
